@@ -27,6 +27,10 @@ pub trait MutX: BufMut {
     fn limit_opt(&self) -> Option<usize> {
         None
     }
+    /// remaining_mut() of the children through get_ref()/get_mut() (first_ref/last_ref ... for Chain)
+    fn peek(&mut self) -> Vec<(usize, usize)> {
+        Vec::new()
+    }
 }
 pub type MX = Box<dyn MutX>;
 
@@ -63,6 +67,9 @@ impl MutX for &'static mut [MaybeUninit<u8>] {
     }
 }
 impl MutX for Chain<MX, MX> {
+    fn peek(&mut self) -> Vec<(usize, usize)> {
+        vec![(self.first_ref().remaining_mut(), self.first_mut().remaining_mut()), (self.last_ref().remaining_mut(), self.last_mut().remaining_mut())]
+    }
     fn collect(self: Box<Self>, out: &mut Vec<LeafState>, l: &mut Vec<usize>) {
         let (a, b) = (*self).into_inner();
         a.collect(out, l);
@@ -73,6 +80,9 @@ impl MutX for Chain<MX, MX> {
     }
 }
 impl MutX for Limit<MX> {
+    fn peek(&mut self) -> Vec<(usize, usize)> {
+        vec![(self.get_ref().remaining_mut(), self.get_mut().remaining_mut())]
+    }
     fn collect(self: Box<Self>, out: &mut Vec<LeafState>, l: &mut Vec<usize>) {
         l.push(Limit::limit(&*self));
         (*self).into_inner().collect(out, l);
